@@ -308,3 +308,22 @@ def generic_replay(path):
     rec = json.load(f)
   print(json.dumps(rec, indent=1)[:4000])
   return 1
+
+
+def in_fresh_process(modname, funcname, *args, **kw):
+  """Run checks.<modname>.<funcname>(*args) in a fresh interpreter (same repo
+  under test) and return its JSON-able result.  Used for concrete replays that
+  must not see state left behind in this process by the symbolic run."""
+  code = ("import sys, json; sys.path.insert(0, %r); from symx import shims; shims.import_repo(); "
+          "import importlib; m = importlib.import_module(%r); "
+          "r = getattr(m, %r)(*json.loads(sys.argv[1])); print('\\n@@RESULT@@' + json.dumps(r, default=str))") % (HERE, modname, funcname)
+  env = dict(os.environ)
+  env["PYTHONDONTWRITEBYTECODE"] = "1"
+  if "hashseed" in kw:
+    env["PYTHONHASHSEED"] = str(kw["hashseed"])
+  p = subprocess.run([sys.executable, "-W", "ignore", "-c", code, json.dumps(list(args))], stdout=subprocess.PIPE, stderr=subprocess.PIPE,
+                     env=env, timeout=kw.get("timeout", 300), cwd=HERE)
+  out = p.stdout.decode("utf-8", "replace")
+  if "@@RESULT@@" not in out:
+    raise RuntimeError("fresh-process replay failed: %s" % (p.stderr.decode("utf-8", "replace")[-600:]))
+  return json.loads(out.split("@@RESULT@@")[-1])
